@@ -32,6 +32,11 @@ def stages(tier, rng, only=None):
                                                         algorun.ALL_CONFIGS, SCHEMES + ac.grid_sample(rng, 5),
                                                         namings=["ints", "letters", "digits", "mixed2"],
                                                         every={k: 4 * v for k, v in COSTLY.items()}), _nt))
+    from .C11 import stages as kwik_stages
+    for st in kwik_stages(tier, rng, prop=PID):
+        if st.name in ("grid3x2", "grid4x2sample", "grid4x2", "random5"):
+            st.name = "kwiksort_all_schedules_" + st.name
+            out.append(st)
     if tier == "thorough":
         cheap = [c for c in algorun.ALL_CONFIGS if c not in COSTLY]
         out.append(ac.stage("grid4x2", PID, lambda: ac.cases(grids.datasets(4, 2), cheap, SCHEMES, flags=(0,),
